@@ -145,6 +145,12 @@ SOUP_TOKENS += [
     "mask=0", "writable=0", "mirror_bank_range=0,0", "addr_range=0,0",
 ]
 
+# operands without a size suffix that no encoding of the opcode can hold (or only a wider / narrower one can)
+SOUP_TOKENS += ["ldx 0x123456", "lda #0x123456", "rep #0x1234", "stz 0x123456,x", "lda 0x123456,y", "jmp 0x10", "lda 0x10,y", "pea 0x10", "jsr 0x123456", "bra 0x123456", "ldy #0x1234567", "sep #-1", "cpx 0x1000000", "W := 0x123456\nstz W,x\nlda W,y", "mvn 0x12,0x34", "brk 0x1234"]
+
+# file directives whose quoted path contains characters shells and path helpers expand
+SOUP_TOKENS += [".incbin 'data$.bin'", ".include 'lib$UNSET.s'", ".include '$HOME/x.s'", ".table '~/x.tbl'", ".include_ips '$HOME/p.ips', 0", ".incbin '%TEMP%\\x.bin'", ".include '~'", ".incbin '${X}.bin'", ".include '$'", ".incbin '$$'", ".table '$(x).tbl'", ".include '`x`.s'"]
+
 # odd spellings of -D values given to the command line (numbers in other notations, expressions, junk)
 CLI_DEFINE_VALUES = ["1", "0x10", "-5", "$8000", "%1010", "1.5", "'A'", "\"A\"", "", " ", "1 +", "(", "((1)", "1e5", "0b", "0x", "#1", "A", "X", "X+1", "0x8000,1", "1;2", "/*", "{", "é", "\\", "1\n2", "0" * 400, "9" * 400, "~1", "1<<70", "@", "`"]
 
@@ -402,8 +408,8 @@ def soup_workload(rng: random.Random) -> dict[str, Any]:
     text = sep.join(rng.choice(SOUP_TOKENS) for _ in range(n))
     if rng.random() < 0.5:
         text = "*=0x008000\n" + text
-    files = {"main.s": text.encode("utf-8"), "zoo.tbl": b"41=A\n42=B\n43=C\n", "other.s": b"nop\n", "zoo.bin": b"\x01\x02\x03"}
-    roles = {"main.s": "source", "zoo.tbl": "table", "other.s": "include", "zoo.bin": "incbin"}
+    files = {"main.s": text.encode("utf-8"), "zoo.tbl": b"41=A\n42=B\n43=C\n", "other.s": b"nop\n", "zoo.bin": b"\x01\x02\x03", "data$.bin": b"\x04\x05"}
+    roles = {"main.s": "source", "zoo.tbl": "table", "other.s": "include", "zoo.bin": "incbin", "data$.bin": "incbin"}
     if rng.random() < 0.3:
         # a small random graph of include files (cycles, diamonds, helpers of different lengths): a cycle
         # must end in an error, never in an endless expansion
